@@ -155,7 +155,7 @@ func runLBHealth(x *X) {
 				touched[e.backend] = true
 				pp := pendingProbe{backend: e.backend, seq: e.seq, doneAt: e.at}
 				switch e.note {
-				case "status", "conn":
+				case "status", "status4xx", "conn":
 					pp.fail = true
 				case "slow":
 					if slow := time.Duration(e.status) * time.Millisecond; slow > PT {
@@ -402,7 +402,27 @@ func runLBHealth(x *X) {
 	}
 
 	for i := 0; i < nSteps && !x.dead; i++ {
-		switch c.Pick([]int{8, 4, 3, 4, 2, 2, 2, 2, 2, 1, 1, 2, 2}, "step") {
+		switch c.Pick([]int{8, 4, 3, 4, 2, 2, 2, 2, 2, 1, 1, 2, 2, 2}, "step") {
+		case 13: // impatient clients: they hang up before the backend has answered (or before the
+			// balancer has even looked at the request). No response, no failed response: that says
+			// nothing about the backend
+			k := 1 + c.Intn(2*threshold+1, "impatient")
+			for j := 0; j < k && !x.dead; j++ {
+				cl := clients[c.Intn(len(clients), "client")]
+				if c.Intn(2, "gone-early") == 1 {
+					x.Do("req", func() { h.do(reqSpec{client: cl, path: "/impatient", preCancelled: true}) }, onErr)
+				} else {
+					x.Do("req", func() {
+						h.do(reqSpec{client: cl, path: "/impatient", plan: &reqPlan{delay: 2 * time.Second}, cancelAfter: 300 * time.Millisecond})
+					}, onErr)
+				}
+				if !stepObserve() {
+					break
+				}
+			}
+			x.Fault("client-disconnect")
+			steps = append(steps, fmt.Sprintf("impatient-clients(%d)", k))
+			continue
 		case 12: // biased pattern: the expiry check racing a fresh ejection. Every backend is ejected
 			// while slow failing requests are still in flight on them; those fail a moment after the
 			// windows have (quietly) elapsed -- and at that very instant new requests arrive, whose
@@ -479,7 +499,7 @@ func runLBHealth(x *X) {
 				continue
 			}
 			b := net.order[c.Intn(len(net.order), "backend")]
-			pm := []string{"status", "conn"}[c.Intn(2, "probemode")]
+			pm := []string{"status", "conn", "status4xx"}[c.Intn(3, "probemode")]
 			net.mu.Lock()
 			b.probeMode = pm
 			net.mu.Unlock()
@@ -679,7 +699,7 @@ func runLBHealth(x *X) {
 			continue
 		case 2: // change probe behaviour
 			b := net.order[c.Intn(nb, "backend")]
-			pm := []string{"ok", "status", "conn", "slow"}[c.Intn(4, "probemode")]
+			pm := []string{"ok", "status", "conn", "slow", "status4xx"}[c.Intn(5, "probemode")]
 			net.mu.Lock()
 			b.probeMode = pm
 			if pm == "slow" {
